@@ -89,3 +89,29 @@ Print Assumptions C20_zero_reported_one.
 Print Assumptions C20_most_linked.
 Print Assumptions C20_refuted_F7.
 Print Assumptions C20_nonvacuous.
+
+(* ---- the traversal the indegree is computed from, as the source has it (GenLinks.v, regenerated on every run):
+   for EVERY history, on the bytes of the link file of the state reached, LinkStore.deduped_link_nodes_iter from
+   the in-head of any linked node returns the model's deduped target list, whose length is the indegree the
+   most-linked query reports (reported_indegree). *)
+From Traph Require GenStorage GenLinks GenLinksFacts.
+Import GenStorage GenLinks GenLinksFacts.
+Theorem C20_source_deduped_reachable : forall d rs h, wf_rules rs -> Forall wf_op h ->
+  let s := run d rs h in
+  forall sg, lrep (stubs s) sg -> fits (nb s * bsz) -> fits (saddr (length (stubs s))) ->
+  forall p nd, find p (tr s) = Some nd -> inh nd <> 0%N ->
+    exists l, py_ls_deduped_link_nodes_iter sg (inh nd) = Some l /\
+              N.of_nat (length l) = reported_indegree nd s.
+Proof.
+  intros d rs h Hr Hh s sg Hrep Hft Hfl p nd Hf Hnz.
+  pose proof (run_Rl d rs h Hr Hh) as HR. fold s in HR.
+  pose proof (reachable_wf_stubs s _ HR Hft Hfl) as Hwf.
+  destruct (L_heads s _ HR p nd Hf) as [_ Hi].
+  destruct Hi as [E|(j & Hj & E)]; [contradiction|].
+  destruct (nth_error (stubs s) j) as [x|] eqn:En; [|apply nth_error_None in En; Lia.lia].
+  exists (map Some (deduped (targets_of (stubs s) (inh nd)))). split.
+  - rewrite E. exact (py_ls_deduped_spec (stubs s) sg j x Hwf Hrep En).
+  - unfold reported_indegree. rewrite map_length.
+    destruct (N.eqb_spec (inh nd) 0%N); [contradiction|reflexivity].
+Qed.
+Print Assumptions C20_source_deduped_reachable.
